@@ -181,6 +181,50 @@ theorem create_rejects_iff_not_derivable (text : Src) (f : Nat)
     refine ⟨⟨fun _ => hm, fun _ => ?_⟩, fun h => absurd h hm⟩
     rw [hcreate, hfail]
 
+/-! ### layout never reaches the compiled structure -/
+
+/-- the nodes that carry layout only: white space / continuation lines, line ends, comments -/
+def isLayout (t : Tree) : Bool :=
+  match t with
+  | .leaf _ _ _ => false
+  | .node n _ => n == "c-wsp" || n == "c-nl" || n == "comment" || n == "WSP" || n == "CRLF"
+
+theorem visit_layout (t : Tree) (h : isLayout t = true) : CT.visit t = .ok none := by
+  cases t with
+  | leaf _ _ _ => simp [isLayout] at h
+  | node n cs =>
+    simp only [isLayout, Bool.or_eq_true, beq_iff_eq] at h
+    rcases h with (((h | h) | h) | h) | h <;> subst h <;> rw [CT.visit.eq_def] <;> simp
+
+/-- **Whatever its layout.**  In an alternation, concatenation, group, option or elements node, the children that are
+layout (c-wsp with its comments and continuation lines, c-nl) contribute nothing: dropping or adding any number of them
+anywhere between the other children leaves the compiled structure unchanged. -/
+theorem layout_children_ignored : ∀ (cs : List Tree), CT.visitL (cs.filter (fun c => !isLayout c)) = CT.visitL cs
+  | [] => rfl
+  | c :: cs => by
+    by_cases h : isLayout c = true
+    · have hv := visit_layout c h
+      rw [CT.visitL.eq_def (c :: cs)]
+      simp only [List.filter_cons, h, Bool.not_true, Bool.false_eq_true, if_false, hv, layout_children_ignored cs]
+      cases CT.visitL cs <;> rfl
+    · have h' : isLayout c = false := by simpa using h
+      rw [CT.visitL.eq_def (c :: cs)]
+      simp only [List.filter_cons, h', Bool.not_false, if_true]
+      rw [CT.visitL.eq_def (c :: _)]
+      simp only [layout_children_ignored cs]
+
+theorem alternation_layout_independent (cs : List Tree) :
+    CT.visit (.node "alternation" (cs.filter (fun c => !isLayout c))) = CT.visit (.node "alternation" cs) := by
+  rw [CT.visit.eq_def, CT.visit.eq_def (.node "alternation" cs)]; simp [layout_children_ignored]
+
+theorem concatenation_layout_independent (cs : List Tree) :
+    CT.visit (.node "concatenation" (cs.filter (fun c => !isLayout c))) = CT.visit (.node "concatenation" cs) := by
+  rw [CT.visit.eq_def, CT.visit.eq_def (.node "concatenation" cs)]; simp [layout_children_ignored]
+
+theorem group_option_layout_independent (n : String) (hn : n = "group" ∨ n = "option" ∨ n = "elements") (cs : List Tree) :
+    CT.visit (.node n (cs.filter (fun c => !isLayout c))) = CT.visit (.node n cs) := by
+  rcases hn with h | h | h <;> subst h <;> rw [CT.visit.eq_def, CT.visit.eq_def (.node _ cs)] <;> simp [layout_children_ignored]
+
 example : decodeNum 16 [0x31, 0x30, 0x46, 0x66] = some 0x10FF := by decide
 example : decodeRepeat ⟨[0x30, 0x30, 0x37], true, []⟩ = some (7, none) := by decide
 example : (match decodeNumVal 2 [0x31, 0x30] (.series [[0x31], [0x31, 0x31]]) with
